@@ -217,6 +217,16 @@ pub fn apply_plain(root: &Path, vars_dir: &Path, op: &FsOp, clock: &mut u64) -> 
             set_mtime_raw(&p, ts);
             vec![(K_MODIFY_DATA, vec![p.clone()]), (K_CLOSE_WRITE, vec![p.clone()]), (K_METADATA, vec![p])]
         }
+        FsOp::WriteAncient { path, content } => {
+            let p = abs(path);
+            if !p.is_file() || std::fs::write(&p, content.as_bytes()).is_err() {
+                return vec![];
+            }
+            // before the epoch, and never twice the same
+            let ts = libc::timespec { tv_sec: -86_400 - tick() as i64, tv_nsec: 0 };
+            set_mtime_raw(&p, ts);
+            vec![(K_MODIFY_DATA, vec![p.clone()]), (K_CLOSE_WRITE, vec![p.clone()]), (K_METADATA, vec![p])]
+        }
         FsOp::Create { path, content } => {
             let p = abs(path);
             if p.exists() {
